@@ -254,7 +254,7 @@ class Report:
             else:
                 fresh.append(v)
         for sig, (f, n) in known_hit.items():
-            print(f"KNOWN-FINDING: property={self.pid} {f.get('what', sig)} [{n} case(s) this run]")
+            print(f"KNOWN-FINDING: property={self.pid} {f.get('what', sig)} [{n} case(s) this run]".replace("\n", "\\n"))
         for d in self.drift[:20]:
             print(f"DRIFT property={self.pid} {d}")
         seen = set()
@@ -267,7 +267,8 @@ class Report:
             path = os.path.join(REPLAYS, f"{self.pid}-{sha(json.dumps(v['case'], sort_keys=True))}.json")
             with open(path, "w") as f:
                 json.dump({"property": self.pid, "signature": v["sig"], "what": v["what"], "case": v["case"]}, f, indent=1)
-            print(f"VIOLATION property={self.pid} replay={path}  # {v['what'][:160]}")
+            one_line = v['what'][:160].replace("\n", "\\n").replace("\r", "\\r")
+            print(f"VIOLATION property={self.pid} replay={path}  # {one_line}")
         cov = self.coverage
         cov.setdefault("evaluations", 0)
         cov.setdefault("distinct_nontrivial", 0)
